@@ -493,7 +493,7 @@ func init() {
 	core.Register(&core.Prop{
 		ID:    "C15",
 		Level: "exploration",
-		Rule:  "jobs = 19 (schema, input, externals) triples covering all seven formats, templates, xpath_dynamic, javascript(_with_context), copy, uuidv3, date-time functions, XML namespaces incl. one URI bound twice, typed external properties (one schema text, three property sets), dotted sibling object keys failing together, a script that throws while holding arguments and one that looks for globals it was not given, the same schema under the built-in extension and under a caller's extension that overrides 'upper'; histories are run both with every job parsing its schema anew and with jobs of equal schema text sharing ONE Schema object; every history of up to 2 (thorough 3) earlier jobs followed by a probe job is run in one process (pools and caches warm, ID counter advanced; state reset only between histories) and the probe's full transcript (bytes, checksums, raw records, errors) must equal the transcript of the same job in a FRESH process (3 fresh subprocesses per job, which must also agree with each other); no emitted record may contain a UUID-shaped string that is not in the input (declaration hashes are UUIDs); checksums: every pair from a per-format record alphabet (equal content, one value changed, shape changed) must have equal checksums iff the records are equal; every XML record of up to 5 (thorough 6) elements over two names and three texts (no attributes, no mixed content), all in one document: records of different content (up to the order of differently named siblings) never share a checksum; distinct by (history, probe) / (format, record pair)",
+		Rule:  "jobs = 19 (schema, input, externals) triples covering all seven formats, templates, xpath_dynamic, javascript(_with_context), copy, uuidv3, date-time functions, XML namespaces incl. one URI bound twice, typed external properties (one schema text, three property sets), dotted sibling object keys failing together, a script that throws while holding arguments and one that looks for globals it was not given, the same schema under the built-in extension and under a caller's extension that overrides 'upper'; histories are run both with every job parsing its schema anew and with jobs of equal schema text sharing ONE Schema object; every history of up to 2 (thorough 3) earlier jobs followed by a probe job is run in one process (pools and caches warm, ID counter advanced; state reset only between histories) and the probe's full transcript (bytes, checksums, raw records, errors) must equal the transcript of the same job in a FRESH process (3 fresh subprocesses per job, which must also agree with each other); no emitted record may contain a UUID-shaped string that is not in the input (declaration hashes are UUIDs); checksums: every pair from a per-format record alphabet (equal content, one value changed, shape changed) must have equal checksums iff the records are equal; the same long inputs of multi-line records (5 items) handed over at once and in pieces of 1000 / 100 / 7 bytes give the same transcript; every XML record of up to 5 (thorough 6) elements over two names and three texts (no attributes, no mixed content), all in one document: records of different content (up to the order of differently named siblings) never share a checksum; distinct by (history, probe) / (format, record pair)",
 		Assumptions: []string{
 			"Go map iteration order cannot be enumerated: order dependence is exposed only through repetition (every probe runs at least 100 times across histories), which is stated here rather than claimed exhaustive",
 			"the `now` function and scripts drawing randomness are excluded by the property",
@@ -594,6 +594,49 @@ func init() {
 					}
 				}
 			}
+			// the same input bytes handed over differently (all at once, in pieces of 1000, 100, 7 bytes):
+			// long inputs of multi-line records, whose reader buffers fill up at different places
+			{
+				items := c09Long()
+				// 3-line records with empty lines inside the records
+				var b strings.Builder
+				for i := 0; b.Len() < 3*4096+500; i++ {
+					fmt.Fprintf(&b, "a%02d-%s\n", i%100, strings.Repeat("x", i%17))
+					if i%3 == 1 {
+						b.WriteString("\n")
+					}
+					fmt.Fprintf(&b, "b%02d-%s\r\n", i%100, strings.Repeat("y", i%13))
+					if i%4 == 2 {
+						b.WriteString("\r\n")
+					}
+					fmt.Fprintf(&b, "c%02d-%s\n", i%100, strings.Repeat("z", i%7))
+				}
+				items = append(items, c09Item{Name: "c09/fixedlength2-rows3+empty-lines-inside", Schema: items[0].Schema, Inputs: [][]byte{[]byte(b.String())}})
+				for _, it := range items {
+					idx++
+					if !c.Mine(idx) {
+						continue
+					}
+					for _, in := range it.Inputs {
+						c.Begin(func() interface{} {
+							return map[string]interface{}{"delivery": map[string]interface{}{"item": it.Name, "schema": it.Schema, "input": string(in)}}
+						})
+						whole := c18Run1(it.Schema, in)
+						for _, size := range []int{1000, 100, 7} {
+							pieces := c18RunPieces(it.Schema, in, []int{size})
+							c.Eval("delivery|" + it.Name)
+							c.Count("delivery_runs", 1)
+							if whole.NewTransformErr != pieces.NewTransformErr || !hx.SameSteps(whole.Steps, pieces.Steps) {
+								c.Violation("result-depends-on-how-the-input-bytes-are-handed-over:"+it.Name,
+									fmt.Sprintf("%s, %d bytes of input: read at once and in pieces of %d bytes give different results\n-- at once:\n%s\n-- in pieces:\n%s", it.Name, len(in), size,
+										trunc2(hx.Transcript(whole.Steps), 1500), trunc2(hx.Transcript(pieces.Steps), 1500)),
+									map[string]interface{}{"delivery": map[string]interface{}{"item": it.Name, "schema": it.Schema, "input": string(in), "piece_size": size}}, nil)
+								break
+							}
+						}
+					}
+				}
+			}
 			// checksums of XML records of every small shape
 			idx++
 			if c.Mine(idx) {
@@ -616,8 +659,22 @@ func init() {
 		Replay: func(raw json.RawMessage) (string, string) {
 			var w struct {
 				Checksum *c15SumCase `json:"checksum"`
+				Delivery *struct {
+					Item   string `json:"item"`
+					Schema string `json:"schema"`
+					Input  string `json:"input"`
+					Size   int    `json:"piece_size"`
+				} `json:"delivery"`
 			}
 			json.Unmarshal(raw, &w)
+			if w.Delivery != nil {
+				whole := c18Run1(w.Delivery.Schema, []byte(w.Delivery.Input))
+				pieces := c18RunPieces(w.Delivery.Schema, []byte(w.Delivery.Input), []int{w.Delivery.Size})
+				if whole.NewTransformErr != pieces.NewTransformErr || !hx.SameSteps(whole.Steps, pieces.Steps) {
+					return "result-depends-on-how-the-input-bytes-are-handed-over:" + w.Delivery.Item, "read at once and in pieces give different results"
+				}
+				return "", "same transcript however the bytes are handed over"
+			}
 			if w.Checksum != nil {
 				sig, detail := c15SumCheck(*w.Checksum)
 				if sig == "" {
